@@ -191,6 +191,9 @@ def native_playback(crate_dir, features, test_name, timeout_s=900):
     failed = re.search(r"test result: FAILED", out) is not None
     passed = re.search(r"test result: ok\. (\d+) passed", out)
     n_passed = int(passed.group(1)) if passed else 0
+    k = out.find("Running unittests")
+    if k >= 0:
+        out = out[k:]
     if failed:
         return True, out
     if ran and n_passed >= 1:
